@@ -2,6 +2,7 @@ package gen
 
 import (
 	"fmt"
+	"strings"
 
 	"verif/tv"
 )
@@ -78,12 +79,28 @@ func Lookalikes(level int) []*tv.Package {
 	add("log/only-statement-of-loop", "func FN(n uint64) uint64 {\n\tfor i := uint64(0); i < n; i++ {\n\t\tlog.Printf(\"i %d\", i)\n\t}\n\treturn n\n}", "small:n")
 	add("log/last-statement", "func FN(p *Pt) {\n\tp.X = 1\n\tlog.Println(\"done\")\n}")
 	add("log/before-return-in-then", "func FN(x uint64) uint64 {\n\tif x > 1 {\n\t\tlog.Println(\"big\")\n\t\treturn 1\n\t}\n\treturn 2\n}")
-	// user declarations named like the GooseLang vocabulary the translation itself uses: the emitted
-	// file defines the name, and every later use of the primitive in the file resolves to that definition
-	add("vocab/func-named-Continue", "func Continue() uint64 {\n\treturn 7\n}\n\nfunc FN(n uint64) uint64 {\n\tvar s uint64 = 0\n\tfor i := uint64(0); i < n; i++ {\n\t\tif i == 1 {\n\t\t\tcontinue\n\t\t}\n\t\ts += i\n\t}\n\treturn s + Continue()\n}", "small:n")
-	add("vocab/func-named-NewMap", "func NewMap(x uint64) uint64 {\n\treturn x + 1\n}\n\nfunc FN(k uint64) uint64 {\n\tm := make(map[uint64]uint64)\n\tm[k] = NewMap(k)\n\treturn m[k]\n}")
-	add("vocab/func-named-Skip", "func Skip() uint64 {\n\treturn 5\n}\n\nfunc FN(n uint64) uint64 {\n\tvar s uint64 = Skip()\n\tfor i := uint64(0); i < n; i++ {\n\t\ts += i\n\t}\n\treturn s\n}", "small:n")
-	add("vocab/const-named-Break", "const Break uint64 = 3\n\nfunc FN(n uint64) uint64 {\n\tvar s uint64 = Break\n\tfor i := uint64(0); i < n; i++ {\n\t\tif i == 2 {\n\t\t\tbreak\n\t\t}\n\t\ts += i\n\t}\n\treturn s\n}", "small:n")
+	// value semantics, nested containers, evaluation order, captured variables
+	add("sem/value-receiver-field-assign", "func (p Pt) FNset(v uint64) uint64 {\n\tp.X = v\n\treturn p.X\n}\n\nfunc FN(x uint64) uint64 {\n\tp := Pt{X: 1, Y: 2}\n\tr := p.FNset(x)\n\treturn r + p.X\n}")
+	add("sem/struct-param-field-assign", "func FNf(p Pt, v uint64) uint64 {\n\tp.Y = v\n\treturn p.Y + p.X\n}\n\nfunc FN(x uint64) uint64 {\n\tp := Pt{X: 1, Y: 2}\n\treturn FNf(p, x) + p.Y\n}")
+	add("sem/nested-map", "func FN(k uint64, j uint64, v uint64) uint64 {\n\tm := make(map[uint64]map[uint64]uint64)\n\tm[k] = make(map[uint64]uint64)\n\tm[k][j] = v\n\treturn m[k][j] + uint64(len(m[k]))\n}")
+	add("sem/map-of-slices-append", "func FN(k uint64, v uint64) uint64 {\n\tm := make(map[uint64][]uint64)\n\tm[k] = append(m[k], v)\n\tm[k] = append(m[k], v+1)\n\treturn m[k][1] + uint64(len(m[k])) + uint64(len(m[k+1]))\n}")
+	add("sem/slice-of-slices", "func FN(x uint64) uint64 {\n\ta := make([][]uint64, 2)\n\ta[0] = append(a[0], x)\n\ta[1] = a[0]\n\ta[1][0] = x + 1\n\treturn a[0][0] + uint64(len(a[1]))\n}")
+	add("sem/and-with-effects", "func FNbump(p *uint64) bool {\n\t*p = *p + 1\n\treturn *p > 1\n}\n\nfunc FN(x uint64) uint64 {\n\tc := new(uint64)\n\tif x > 5 && FNbump(c) && FNbump(c) {\n\t\treturn *c + 10\n\t}\n\treturn *c\n}")
+	add("sem/or-with-effects", "func FNmark(p *uint64) bool {\n\t*p = *p + 1\n\treturn false\n}\n\nfunc FN(x uint64) uint64 {\n\tc := new(uint64)\n\tif x > 5 || FNmark(c) || FNmark(c) {\n\t\treturn *c + 10\n\t}\n\treturn *c\n}")
+	add("sem/shift-by-symbolic", "func FN(x uint64, y uint64) uint64 {\n\treturn x<<y + x>>y\n}")
+	add("sem/shift-u32-by-symbolic", "func FN(x uint32, y uint32) uint32 {\n\treturn x<<y | x>>y\n}")
+	add("sem/nil-map-read", "func FN(k uint64) uint64 {\n\tvar m map[uint64]uint64\n\treturn m[k] + uint64(len(m))\n}")
+	add("sem/map-nil-compare", "func FN(m map[uint64]uint64) bool {\n\treturn m == nil\n}")
+	add("sem/closure-modifies-captured", "func FN(x uint64) uint64 {\n\tvar n = x\n\tinc := func() {\n\t\tn = n + 1\n\t}\n\tinc()\n\tinc()\n\treturn n\n}")
+	add("sem/closure-captures-param", "func FN(x uint64) uint64 {\n\tf := func(d uint64) uint64 {\n\t\treturn x + d\n\t}\n\treturn f(1) + f(2)\n}")
+	add("sem/infinite-loop-break", "func FN(n uint64) uint64 {\n\tvar i uint64 = 0\n\tfor {\n\t\tif i >= n {\n\t\t\tbreak\n\t\t}\n\t\ti = i + 1\n\t}\n\treturn i\n}", "small:n")
+	add("sem/struct-slice-field-append", "type FNbox struct {\n\tV uint64\n\tS []uint64\n}\n\nfunc FN(x uint64) uint64 {\n\tb := &FNbox{V: 1}\n\tb.S = append(b.S, x)\n\tb.S = append(b.S, x+1)\n\treturn b.S[1] + uint64(len(b.S)) + b.V\n}")
+	add("sem/args-evaluated-left-to-right", "func FNnext(p *uint64) uint64 {\n\t*p = *p + 1\n\treturn *p\n}\n\nfunc FNpair(a uint64, b uint64) uint64 {\n\treturn a*10 + b\n}\n\nfunc FN(x uint64) uint64 {\n\tc := new(uint64)\n\t*c = x\n\treturn FNpair(FNnext(c), FNnext(c))\n}")
+	add("sem/binop-operands-left-to-right", "func FNtick(p *uint64) uint64 {\n\t*p = *p * 2\n\treturn *p\n}\n\nfunc FN(x uint64) uint64 {\n\tc := new(uint64)\n\t*c = x\n\treturn FNtick(c) - FNtick(c)\n}")
+	add("sem/method-on-map-element-struct", "func FN(k uint64, x uint64) uint64 {\n\tm := make(map[uint64]Pt)\n\tp := m[k]\n\tp.X = x\n\tm[k] = p\n\treturn m[k].X + p.X\n}")
+	add("lit/char-compare", "func FN(b byte) bool {\n\treturn b == 'a'\n}")
+	add("lit/char-convert", "func FN(x uint64) uint64 {\n\treturn x + uint64('0')\n}")
+	add("lit/rune-escape", "func FN(b byte) bool {\n\treturn b == '\\n'\n}")
 	// values that are merely *named* like the logging packages: their methods are ordinary calls
 	add("log/local-named-log", "type FNjournal struct {\n\ttotal uint64\n}\n\nfunc (j *FNjournal) Println(v uint64) {\n\tj.total = j.total + v\n}\n\nfunc FN(x uint64) uint64 {\n\tlog := &FNjournal{}\n\tlog.Println(x)\n\tlog.Println(4)\n\treturn log.total\n}")
 	add("log/local-named-fmt", "type FNsink struct {\n\tn uint64\n}\n\nfunc (s *FNsink) Printf(v uint64, w uint64) {\n\ts.n = s.n + v*2 + w\n}\n\nfunc FN(x uint64) uint64 {\n\tfmt := &FNsink{}\n\tfmt.Printf(x, 1)\n\treturn fmt.n\n}")
@@ -182,6 +199,27 @@ func Lookalikes(level int) []*tv.Package {
 	add("ctl/map-range-order", "func FN(m map[uint64]uint64) uint64 {\n\tvar last uint64 = 0\n\tfor k := range m {\n\t\tlast = k\n\t}\n\treturn last & 0\n}")
 	add("scope/shadow-builtin-type", "func FN(x uint64) uint64 {\n\ttype local uint64\n\tvar v local = local(x)\n\treturn uint64(v)\n}")
 	pkgs := b.packages("look", `import "github.com/goose-lang/goose/machine"`+"\n", 40)
+	// user declarations named like the GooseLang vocabulary: one package each (the definition shadows
+	// the primitive for the rest of its file, so it must not share a file with other cases)
+	for i, v := range []struct {
+		id, src string
+		small   bool
+	}{
+		{"vocab/func-named-Continue", "func Continue() uint64 {\n\treturn 7\n}\n\nfunc FN(n uint64) uint64 {\n\tvar s uint64 = 0\n\tfor i := uint64(0); i < n; i++ {\n\t\tif i == 1 {\n\t\t\tcontinue\n\t\t}\n\t\ts += i\n\t}\n\treturn s + Continue()\n}", true},
+		{"vocab/func-named-NewMap", "func NewMap(x uint64) uint64 {\n\treturn x + 1\n}\n\nfunc FN(k uint64) uint64 {\n\tm := make(map[uint64]uint64)\n\tm[k] = NewMap(k)\n\treturn m[k]\n}", false},
+		{"vocab/func-named-Skip", "func Skip() uint64 {\n\treturn 5\n}\n\nfunc FN(n uint64) uint64 {\n\tvar s uint64 = Skip()\n\tfor i := uint64(0); i < n; i++ {\n\t\ts += i\n\t}\n\treturn s\n}", true},
+		{"vocab/const-named-Break", "const Break uint64 = 3\n\nfunc FN(n uint64) uint64 {\n\tvar s uint64 = Break\n\tfor i := uint64(0); i < n; i++ {\n\t\tif i == 2 {\n\t\t\tbreak\n\t\t}\n\t\ts += i\n\t}\n\treturn s\n}", true},
+	} {
+		name := fmt.Sprintf("vocab%d", i)
+		fn := "F" + sanitize(v.id)
+		src := strings.ReplaceAll(v.src, "FN", fn)
+		file := "package " + name + "\n\n// " + v.id + "\n" + src + "\n"
+		c := tv.Case{ID: v.id, Func: fn, Reject: "may", File: "gen.go", FromLine: 3, ToLine: strings.Count(file, "\n"), Src: src}
+		if v.small {
+			c.Small = []string{"n"}
+		}
+		pkgs = append(pkgs, &tv.Package{Name: name, Files: map[string]string{"gen.go": file}, Cases: []tv.Case{c}})
+	}
 	// user-defined functions that share their name with a builtin: one package each
 	for _, n := range []struct{ name, decl, use string }{
 		{"len", "func len(a []uint64) uint64 {\n\treturn 7\n}", "len(a)"},
